@@ -1,22 +1,12 @@
-import LK.Generated.GuardsC11
+import LK.Generated.GuardsC05
 /-!
-# C11 — obligation on the translated guard of `DerivingRNG.__call__`
-Branch 1 derives the seed from the user identifier; branch 0 spawns the next child seed.
+# C05 / C11 — which sampling path `sample_records` / `sample_users` take
+Path codes (the calls themselves, arguments included, are the atoms of the translation, so a call that no longer forwards
+`test_only` or the generator is no longer recognised): 0 one sample, 1 fall back to cross-folding (with the same generator),
+2 disjoint samples, 3 independent samples.
 -/
 set_option linter.unusedSimpArgs false
-namespace LK.Gen.GuardsC11
-
-/-- every query that names a user — identifier 0 or "" included — gets the seed derived from that identifier -/
-theorem derived_for_every_user (q u : Int) : derivingBranch (some q) (some u) = 1 := by
-  simp [derivingBranch, LK.Py.truthy]
-
-theorem spawned_without_user (q : LK.Py.V) : derivingBranch q none = 0 := by
-  cases q <;> simp [derivingBranch, LK.Py.truthy]
-
-theorem spawned_without_query (u : LK.Py.V) : derivingBranch none u = 0 := by
-  simp [derivingBranch, LK.Py.truthy]
-
-/-! the samplers: a fall-back to cross-folding hands the caller's generator on (the call, arguments included, is an atom of the translation) -/
+namespace LK.Gen.GuardsC05
 
 def pathSpec (repeats : LK.Py.V) (disjoint tooMany : Bool) : LK.Py.V :=
   match repeats with
@@ -38,4 +28,4 @@ theorem samplers_agree (repeats : LK.Py.V) (disjoint tooMany : Bool) :
     sampleRecordsPath repeats disjoint tooMany = sampleUsersPath repeats disjoint tooMany := by
   rw [sampleRecordsPath_spec, sampleUsersPath_spec]
 
-end LK.Gen.GuardsC11
+end LK.Gen.GuardsC05
